@@ -553,6 +553,12 @@ class BOCSDesigner(vza.Designer):
     for p_config in problem_statement.search_space.parameters:
       if p_config.external_type != vz.ExternalType.BOOLEAN:
         raise ValueError('Only boolean search spaces are supported.')
+      if len(p_config.feasible_values) != 2:
+        # Suggestions take both values; a parameter restricted to one of them
+        # would receive suggestions outside of its domain.
+        raise ValueError(
+            f'Boolean parameter {p_config.name} must allow both True and False.'
+        )
 
     self._problem_statement = problem_statement
     self._metric_name = self._problem_statement.metric_information.item().name
